@@ -133,7 +133,7 @@ def program(rng, depth0, maxlen=25, nest=0):
             nk = rng.choice([0, 1, 2, 3, 3, 20, 21]); ns = rng.randrange(0, min(nk, 3) + 1) if nk <= 20 else 1
             if rng.random() < 0.1:
                 ns = nk + 1
-            out += push_item(rng, rng.choice([b'', b'', b'', b'\x01']))
+            out += push_item(rng, rng.choice([b'', b'', b'', b'\x01', b'\x00', b'\x02', b'\x80', b'\x05\x06']))
             for _ in range(ns):
                 out += push(rng.choice([b'', b'\x30\x01\x02', bytes(rng.getrandbits(8) for _ in range(5))]))
             out += push_item(rng, num(ns))
